@@ -28,8 +28,8 @@ ASSUMPTIONS = [
 FORMATS = ["json", "json-raw", "xml", "rdf", "provn"]     # json-raw = json with ensure_ascii=False
 READABLE = ["json", "json-raw", "xml", "rdf"]
 REQUIRED_CLASSES = {"all": ["dest:%s:%s" % (f, d) for f in FORMATS for d in ("str", "text", "binary", "path")] +
-                    ["src:%s:%s" % (f, s) for f in READABLE for s in ("content_str", "content_bytes", "text", "binary", "path")] +
-                    ["read:%s:%s:%s" % (f, s, m) for f in READABLE for s in ("path", "text", "binary") for m in ("auto", "explicit")]}
+                    ["src:%s:%s" % (f, s) for f in READABLE for s in ("content_str", "content_bytes", "text", "binary", "path", "textfile")] +
+                    ["read:%s:%s:%s" % (f, s, m) for f in READABLE for s in ("path", "text", "binary", "textfile") for m in ("auto", "explicit")]}
 
 
 def budget(tier):
@@ -162,6 +162,17 @@ def check(case, ctx):
             "text": lambda: dict(source=io.StringIO(s_str)), "binary": lambda: dict(source=io.BytesIO(s_bin)),
             "path": lambda: dict(source=path),
         }
+        # a text-mode FILE object in an encoding other than UTF-8: the stream's decoded text is what counts
+        tpath = os.path.join(wd, "doc-%s.utf16.txt" % fmt_name)
+        with open(tpath, "w", encoding="utf-16") as f:
+            f.write(s_str)
+        opened = []
+
+        def _textfile():
+            fh = open(tpath, "r", encoding="utf-16")
+            opened.append(fh)
+            return dict(source=fh)
+        sources["textfile"] = _textfile
         for name, mk in sources.items():
             try:
                 d2 = ProvDocument.deserialize(format=fmt, **mk())
@@ -173,7 +184,7 @@ def check(case, ctx):
                 items.append(_it("deserialize_returned_none:%s:%s" % (fmt, name)))
                 continue
             same_doc(fmt, d2, "%s:%s" % (fmt, name))
-        for name in ("path", "text", "binary"):
+        for name in ("path", "text", "binary", "textfile"):
             for mode in ("auto", "explicit"):
                 src = sources[name]()["source"]
                 try:
@@ -186,10 +197,13 @@ def check(case, ctx):
                     items.append(_it("read_returned_none:%s:%s:%s" % (fmt, name, mode)))
                     continue
                 same_doc(fmt, d3, "read:%s:%s:%s" % (fmt, name, mode))
-        try:
-            os.remove(path)
-        except OSError:
-            pass
+        for fh in opened:
+            fh.close()
+        for x in (path, tpath):
+            try:
+                os.remove(x)
+            except OSError:
+                pass
         if len(items) > 4:
             break
     return items
